@@ -45,6 +45,66 @@ fn hang_seen() {
     HANG_SEEN.store(true, Ordering::SeqCst);
 }
 
+/// An in-memory stream whose server end can be told to fail its next read or write with a chosen `io::ErrorKind`.
+#[derive(Default)]
+struct Fault {
+    read_err: Mutex<Option<std::io::ErrorKind>>,
+    write_err: Mutex<Option<std::io::ErrorKind>>,
+    read_waker: Mutex<Option<std::task::Waker>>,
+}
+impl Fault {
+    fn fail_reads(&self, k: std::io::ErrorKind) {
+        *self.read_err.lock().unwrap() = Some(k);
+        if let Some(w) = self.read_waker.lock().unwrap().take() {
+            w.wake();
+        }
+    }
+    fn fail_writes(&self, k: std::io::ErrorKind) {
+        *self.write_err.lock().unwrap() = Some(k);
+    }
+}
+struct FaultyIo {
+    inner: tokio::io::DuplexStream,
+    fault: Arc<Fault>,
+}
+impl AsyncRead for FaultyIo {
+    fn poll_read(mut self: std::pin::Pin<&mut Self>, cx: &mut std::task::Context<'_>, buf: &mut tokio::io::ReadBuf<'_>) -> std::task::Poll<std::io::Result<()>> {
+        if let Some(k) = *self.fault.read_err.lock().unwrap() {
+            return std::task::Poll::Ready(Err(std::io::Error::new(k, "scripted read failure")));
+        }
+        *self.fault.read_waker.lock().unwrap() = Some(cx.waker().clone());
+        std::pin::Pin::new(&mut self.inner).poll_read(cx, buf)
+    }
+}
+impl AsyncWrite for FaultyIo {
+    fn poll_write(mut self: std::pin::Pin<&mut Self>, cx: &mut std::task::Context<'_>, buf: &[u8]) -> std::task::Poll<std::io::Result<usize>> {
+        if let Some(k) = *self.fault.write_err.lock().unwrap() {
+            return std::task::Poll::Ready(Err(std::io::Error::new(k, "scripted write failure")));
+        }
+        std::pin::Pin::new(&mut self.inner).poll_write(cx, buf)
+    }
+    fn poll_flush(mut self: std::pin::Pin<&mut Self>, cx: &mut std::task::Context<'_>) -> std::task::Poll<std::io::Result<()>> {
+        std::pin::Pin::new(&mut self.inner).poll_flush(cx)
+    }
+    fn poll_shutdown(mut self: std::pin::Pin<&mut Self>, cx: &mut std::task::Context<'_>) -> std::task::Poll<std::io::Result<()>> {
+        std::pin::Pin::new(&mut self.inner).poll_shutdown(cx)
+    }
+}
+
+/// The error kinds a transport can hand to the reader / writer (`rerr<k>` / `werr<k>` causes).
+const IO_KINDS: [std::io::ErrorKind; 10] = [
+    std::io::ErrorKind::ConnectionReset,
+    std::io::ErrorKind::ConnectionAborted,
+    std::io::ErrorKind::BrokenPipe,
+    std::io::ErrorKind::UnexpectedEof,
+    std::io::ErrorKind::TimedOut,
+    std::io::ErrorKind::InvalidData,
+    std::io::ErrorKind::PermissionDenied,
+    std::io::ErrorKind::NotConnected,
+    std::io::ErrorKind::OutOfMemory,
+    std::io::ErrorKind::Other,
+];
+
 trait Io: AsyncRead + AsyncWrite + Unpin + Send {}
 impl<T: AsyncRead + AsyncWrite + Unpin + Send> Io for T {}
 type BoxIo = Box<dyn Io>;
@@ -201,6 +261,8 @@ fn valid(entry: Entry, mode: char, phase: &str, cause: &str) -> bool {
         "late" => false,
         _ if phase == "late" => false,
         "close" | "drop" | "proto" | "protog" | "malformed" | "malformeds" | "malformedl" | "toobig" => true,
+        // a scripted error kind from the transport: adopted streams only, while the reader is reading
+        "rerr" | "werr" => entry == Entry::Adopt && matches!(phase, "idle" | "parked" | "parkedfut"),
         "hpanic" => matches!(phase, "idle" | "inline" | "parked" | "parkedfut" | "backlog"),
         "cpanic" => phase == "connecting",
         "cancel" => match entry {
@@ -400,6 +462,7 @@ fn make_router(sh: &Arc<Shared>) -> Router {
     let (s1, s2, s3, s4) = (sh.clone(), sh.clone(), sh.clone(), sh.clone());
     Router::new()
         .with_json("/echo", |v: Value| Ok(v))
+        .with_json("/len", |v: Value| Ok(json!(v.as_str().map(|s| s.len()))))
         .with_json("/panic", |v: Value| -> Result<Value, (ErrorCode, String)> { scripted_panic(v.get("k").and_then(|k| k.as_str()).and_then(|k| k.chars().next()).unwrap_or(' '), "inline handler") })
         .with_json_ctx("/gate", move |ctx: &CallContext, _v: Value| {
             let Some(rec) = rec_of_ctx(&s1, ctx) else { return Ok(json!("unknown-peer")) };
@@ -706,6 +769,7 @@ impl Group {
         *self.sh.establishing.lock().unwrap() = if scen.hsfail() { None } else { Some(rec.clone()) };
         let mut conn_task: Option<ConnTask> = None;
         let mut echo_sent = false;
+        let fault = Arc::new(Fault::default());
         let mut raw_tcp: Option<tokio::net::TcpStream> = None;
         let mut ws: Option<Ws> = None;
         match &self.ctl {
@@ -720,6 +784,7 @@ impl Group {
                     256 * 1024
                 };
                 let (client_io, server_io) = tokio::io::duplex(buf);
+                let server_io = FaultyIo { inner: server_io, fault: fault.clone() };
                 let shared = shared.clone();
                 let token = ShutdownToken::new();
                 if scen.phase == "late" {
@@ -869,6 +934,19 @@ impl Group {
                     return Err("parkfut-handler-not-entered".into());
                 }
             }
+            "parkedsat" => {
+                // off-reader limit 1: the parked handler holds the only permit; a second off-reader request takes the
+                // saturation path (refused with an error response, C16) on this same connection
+                ws.send(request(2, "/park", &json!(null), false)).await.map_err(|e| format!("send-park {e}"))?;
+                if !wait_evt(ev_rx, |e| matches!(e, Evt::Parked)).await {
+                    return Err("park-handler-not-entered".into());
+                }
+                ws.send(request(5, "/park", &json!(null), false)).await.map_err(|e| format!("send-park2 {e}"))?;
+                match read_frames(&mut ws, &mut res.wire, |c| c == "r5").await {
+                    Ok(true) => {}
+                    other => return Err(format!("saturated-request-not-answered {:?}", other)),
+                }
+            }
             "parked" => {
                 ws.send(request(2, "/park", &json!(null), false)).await.map_err(|e| format!("send-park {e}"))?;
                 if !wait_evt(ev_rx, |e| matches!(e, Evt::Parked)).await {
@@ -929,7 +1007,26 @@ impl Group {
                 })
                 .await;
             }
+            "rerr" => {
+                fault.fail_reads(IO_KINDS[scen.nreq % IO_KINDS.len()]);
+            }
+            "werr" => {
+                // the writer's next write fails: it exits and the channel closes; the reader notices when it has a
+                // response to send
+                fault.fail_writes(IO_KINDS[scen.nreq % IO_KINDS.len()]);
+                let _ = tokio::time::timeout(wd(), ws.as_mut().unwrap().send(request(3, "/echo", &json!(3), false))).await;
+                let _ = tokio::time::timeout(wd(), ws.as_mut().unwrap().send(request(4, "/echo", &json!(4), false))).await;
+                // (should the second response be queued before the writer has hit its error, the Close ends it)
+                let _ = tokio::time::timeout(wd(), ws.as_mut().unwrap().send(WsMsg::Close(None))).await;
+            }
             "toobig" => {
+                // (r) the positive sibling first: a frame just below the limit is served
+                let near = "y".repeat((1 << 20) - 64 * 1024);
+                let _ = tokio::time::timeout(wd(), ws.as_mut().unwrap().send(request(4, "/len", &json!(near), false))).await;
+                match read_frames(ws.as_mut().unwrap(), &mut res.wire, |c| c == "r4").await {
+                    Ok(true) => {}
+                    _ => res.notes.push("near-limit-frame-not-answered".into()),
+                }
                 // larger than the server's inbound message limit (1 MiB in `lim` groups): tungstenite refuses it
                 let _ = tokio::time::timeout(wd(), ws.as_mut().unwrap().send(WsMsg::Binary(vec![0u8; 3 << 20]))).await;
             }
@@ -990,7 +1087,7 @@ impl Group {
         if !ended && !wait_evt(ev_rx, |e| matches!(e, Evt::Ended)).await {
             res.problems.push(("lifecycle.disconnect.missing".into(), format!("last disconnect callback not invoked within {:?} after the connection ended ({} / {})", WD, scen.phase, scen.cause)));
         }
-        if phase == "parked" || phase == "parkedfut" {
+        if phase == "parked" || phase == "parkedfut" || phase == "parkedsat" {
             rec.park_gate.open();
             // the handler's verdict is the observable (its ParkDone event may already have been consumed: a handler
             // waiting on `cancelled()` finishes before the disconnect callbacks do)
@@ -1383,7 +1480,7 @@ async fn run_group(cfg: GroupCfg, scens: Vec<Scen>, big_rt: &tokio::runtime::Run
 // generation
 // ---------------------------------------------------------------------------------------------
 const PHASES: [&str; 7] = ["idle", "inline", "parked", "parkedfut", "queued", "backlog", "connecting"];
-const CAUSES: [&str; 11] = ["close", "drop", "proto", "protog", "malformed", "malformeds", "malformedl", "hpanic", "cpanic", "cancel", "abort"];
+const CAUSES: [&str; 13] = ["close", "drop", "proto", "protog", "malformed", "malformeds", "malformedl", "hpanic", "cpanic", "cancel", "abort", "rerr", "werr"];
 
 fn fill_scen(rng: &mut Rng, cfg: &GroupCfg, idx: String, phase: &str, cause: &str) -> Scen {
     let nuser = cfg.nconn + cfg.nctx;
@@ -1394,6 +1491,7 @@ fn fill_scen(rng: &mut Rng, cfg: &GroupCfg, idx: String, phase: &str, cause: &st
     let cause = if cfg.lim && cause == "protog" && matches!(phase, "idle" | "parked" | "parkedfut") && rng.chance(1, 2) { "toobig" } else { cause };
     // (garbage is only partly read by the server: through a tiny pipe the rest of it could never be written)
     let cause = if cfg.frag > 0 && cause == "protog" { "proto" } else { cause };
+    let phase = if phase == "parked" && cfg.off == '1' { "parkedsat" } else { phase };
     let payload = if cause == "cpanic" || cause == "hpanic" { *rng.pick(&[' ', 's', 'n']) } else { ' ' };
     // never more notifies than the channel holds: `try_send` must not depend on the writer's progress
     let mut budget = cfg.cap.min(6);
@@ -1408,6 +1506,7 @@ fn fill_scen(rng: &mut Rng, cfg: &GroupCfg, idx: String, phase: &str, cause: &st
     let nreq = match phase {
         "queued" => 12,
         "backlog" => 8,
+        _ if cause == "rerr" || cause == "werr" => rng.below(IO_KINDS.len() as u64) as usize, // which io::ErrorKind
         _ => 0,
     };
     Scen { idx, phase: phase.into(), cause: cause.into(), notif, at, nreq, payload }
@@ -2009,6 +2108,21 @@ fn plan_rx(rng: &mut Rng, g: usize) -> RxPlan {
     let mut next_c = 0usize;
     let mut pool: Vec<String> = vec!["u0".into(), "u1".into(), "u2".into(), "x0".into(), "x1".into()];
     let n = rng.range(10, 20);
+    if rng.chance(1, 3) {
+        // rich state: one peer holds 12-16 aliases registered in a shuffled order before anything is taken over
+        // or evicted
+        let c = next_c;
+        next_c += 1;
+        steps.push(RxStep::Open { c, keys: vec![format!("s{c}")] });
+        alive.push(c);
+        pool.push(format!("s{c}"));
+        let mut many: Vec<String> = (0..rng.range(12, 16)).map(|k| format!("m{:02}", (k * 7) % 23)).collect();
+        rng.shuffle(&mut many);
+        for k in many {
+            pool.push(k.clone());
+            steps.push(RxStep::Alias { c, off: rng.chance(1, 2), key: k });
+        }
+    }
     for _ in 0..n {
         let roll = rng.below(100);
         if (roll < 35 && alive.len() < 5) || alive.is_empty() {
@@ -2544,11 +2658,67 @@ enum AnyPlan {
     Burst(BurstPlan),
 }
 
+/// Public entry points of src/websocket_server.rs the harness drives …
+const DRIVEN: &[&str] = &[
+    "new", "with_outbound_capacity", "with_limits", "with_offreader_limit", "with_peer_registry", "on_peer_connect",
+    "on_peer_connect_with_handshake", "on_peer_disconnect", "on_error", "serve_listener", "serve_listener_with_shutdown",
+    "serve_listener_with_graceful_drain", "into_shared", "accept", "accept_with_limits", "accept_with_handshake",
+    "accept_with_handshake_and_limits", "limits", "adopt_upgraded", "adopt_upgraded_partially_read", "serve_connection",
+    "serve_connection_with_handshake", "serve_connection_with_cancel", "serve_connection_with_cancel_and_handshake", "cancel",
+    "from_http_request", "path", "query",
+];
+/// … and the ones it knowingly does not, with the reason.
+const NOT_DRIVEN: &[(&str, &str)] = &[
+    ("serve", "binds the address, then serve_listener (needs a fixed port)"),
+    ("serve_with_shutdown", "binds the address, then serve_listener_with_shutdown"),
+    ("serve_with_graceful_drain", "binds the address, then serve_listener_with_graceful_drain"),
+    ("listen", "TcpListener::bind"),
+    ("is_cancelled", "ShutdownToken getter"),
+    ("cancelled", "ShutdownToken future (the connection's own token is what handlers wait on)"),
+    ("header", "HandshakeContext getter"),
+    ("headers", "HandshakeContext getter"),
+    ("error_code", "ConnectionError -> ErrorCode table (C16/C17)"),
+    ("derive_accept_key", "SHA-1/base64 of the upgrade key: adopted upgrades are performed by the embedder"),
+    ("proxy_connection", "no peer, no hooks, no token"),
+    ("proxy_connection_with_limits", "no peer, no hooks, no token"),
+    ("is_websocket_upgrade", "co-hosting sniff before any handshake"),
+];
+
+/// Every `pub fn` of the anchored source file of the tree under test is either driven or knowingly not driven;
+/// anything else (a new twin) is reported in the evidence and on stderr.
+fn entry_point_audit(out: &mut Out) {
+    let repo = std::env::var("VERIF_REPO").unwrap_or_else(|_| "/repo".into());
+    let text = std::fs::read_to_string(std::path::Path::new(&repo).join("src/websocket_server.rs")).unwrap_or_default();
+    let text = text.split("#[cfg(test)]").next().unwrap_or("").to_string();
+    let mut unknown: Vec<String> = Vec::new();
+    let mut seen = 0;
+    for line in text.lines() {
+        let t = line.trim_start();
+        for pre in ["pub async fn ", "pub fn "] {
+            if let Some(rest) = t.strip_prefix(pre) {
+                let name: String = rest.chars().take_while(|c| c.is_alphanumeric() || *c == '_').collect();
+                seen += 1;
+                if !DRIVEN.contains(&name.as_str()) && !NOT_DRIVEN.iter().any(|(n, _)| *n == name) && !unknown.contains(&name) {
+                    unknown.push(name);
+                }
+            }
+        }
+    }
+    for u in &unknown {
+        eprintln!("fam_lifecycle: public entry point `{u}` of src/websocket_server.rs is neither driven nor listed as not driven");
+        out.count(&format!("NOT_DRIVEN.{u}"));
+    }
+    out.extra.insert("entry_points_seen".into(), json!(seen));
+    out.extra.insert("not_driven".into(), json!(unknown));
+    out.extra.insert("not_driven_known".into(), json!(NOT_DRIVEN.iter().map(|(n, w)| format!("{n}: {w}")).collect::<Vec<_>>()));
+}
+
 fn main() {
     let args = Args::parse();
     quiet_panics();
     let mut out = Out::new(&args.out);
     out.rule = "one case = one connection driven through (entry × phase × exit cause) on a real server, 1..32 connections per server instance concurrently; every valid combination of the matrix is generated once per round (quick: 4 rounds, thorough: 40) with random hook counts (1-3 plain, 0-2 handshake-aware connect callbacks, 1-3 disconnect callbacks), registry on/off, notifies per connect callback, the callback the connection is held in / that panics; non-trivial = the connection was accepted or its handshake failed as scripted and its callbacks' trace was compared (all cases). Registry scripts (rx lines; quick 60, thorough 600 scripts of 10-25 steps on serve_listener / serve_connection / adopt_upgraded servers with with_peer_registry): up to 5 live connections whose connect hook registers 0-3 aliases (a shared user key first, so later connections take over non-newest aliases), alias calls from inline and off-reader handlers, alias calls kept in flight (key conversion blocks until the peer is removed) while the connection ends by Close / drop / malformed frame; after every step get_by for every key ever used and get / aliases_for / key_for for every connection ever opened are compared with C18's model and with the harness's own reading of the history".into();
+    entry_point_audit(&mut out);
     THOROUGH.store(args.thorough(), Ordering::SeqCst);
     let mut rng = Rng::new(args.seed);
     let plans: Vec<AnyPlan> = match args.replay_ops() {
